@@ -30,20 +30,22 @@ def main():
     if not os.path.exists(gi):
         open(gi, "w").write("*.lean\n")
     t0 = time.time()
-    p = subprocess.run([sys.executable, os.path.join(VERIF, "translators", "c19_c", "gen_c.py"), repo, VERIF, work, stage],
-                       stdout=subprocess.PIPE, stderr=subprocess.STDOUT)
-    print(p.stdout.decode().strip())
-    if p.returncode != 0:
-        print("TRANSLATOR-FAILED c19_c (does control/kern/tproxy.c still compile with the shim headers?)")
-        return 3
     env = dict(os.environ, GOFLAGS="-mod=mod", GOPROXY="off")
     env.pop("GOSUMDB", None)
     if env.get("GOTOOLCHAIN") == "local":
         env.pop("GOTOOLCHAIN")
-    p = subprocess.run(["go", "run", "main.go", repo, work, stage], cwd=os.path.join(VERIF, "translators", "c19_go"), env=env,
-                       stdout=subprocess.PIPE, stderr=subprocess.STDOUT)
-    print(p.stdout.decode().strip())
-    if p.returncode != 0:
+    # the two translators are independent: run them side by side
+    pc = subprocess.Popen([sys.executable, os.path.join(VERIF, "translators", "c19_c", "gen_c.py"), repo, VERIF, work, stage],
+                          stdout=subprocess.PIPE, stderr=subprocess.STDOUT)
+    pg = subprocess.Popen(["go", "run", "main.go", repo, work, stage], cwd=os.path.join(VERIF, "translators", "c19_go"), env=env,
+                          stdout=subprocess.PIPE, stderr=subprocess.STDOUT)
+    oc, og = pc.communicate()[0], pg.communicate()[0]
+    print(oc.decode().strip())
+    print(og.decode().strip())
+    if pc.returncode != 0:
+        print("TRANSLATOR-FAILED c19_c (does control/kern/tproxy.c still compile with the shim headers?)")
+        return 3
+    if pg.returncode != 0:
         print("TRANSLATOR-FAILED c19_go")
         return 3
     # move only complete tables into the lake workspace
